@@ -56,10 +56,13 @@ pub struct Layout {
     /// a mini FAT sector (all entries free) is allocated although no stream lives in the mini stream (what remains after
     /// every small stream was deleted): the root entry has no mini stream then
     pub empty_minifat_sector: bool,
+    /// every regular stream chain and the mini-stream container chain own this many sectors more than their size needs
+    /// (what is left after a stream shrank in place); the spare sectors are filled with 0xEE
+    pub spare_chain_sectors: usize,
 }
 impl Default for Layout {
     fn default() -> Self {
-        Layout { v4: false, order: Order::Sequential, mini_order: Order::Sequential, unused_dir_entries: 0, dir_reversed: false, free_sectors: 0, extra_fat_sectors: 0, free_mini_sectors: 0, name_garbage: false, size_hi_garbage: false, empty_minifat_sector: false }
+        Layout { v4: false, order: Order::Sequential, mini_order: Order::Sequential, unused_dir_entries: 0, dir_reversed: false, free_sectors: 0, extra_fat_sectors: 0, free_mini_sectors: 0, name_garbage: false, size_hi_garbage: false, empty_minifat_sector: false, spare_chain_sectors: 0 }
     }
 }
 
@@ -167,9 +170,10 @@ pub fn write(entries: &[Entry], lay: &Layout) -> Vec<u8> {
     // --- chains ------------------------------------------------------------------------------
     // chain list: [dir, minifat, ministream, regular streams...]; FAT/DIFAT handled separately below
     let reg_ix: Vec<usize> = (0..entries.len()).filter(|i| entries[*i].data.as_ref().map(|d| d.len() >= 4096).unwrap_or(false)).collect();
-    let mut chains: Vec<usize> = vec![dir_sectors, minifat_bytes.len() / ss, ministream.len().div_ceil(ss)];
+    let spare = lay.spare_chain_sectors;
+    let mut chains: Vec<usize> = vec![dir_sectors, minifat_bytes.len() / ss, ministream.len().div_ceil(ss) + if ministream.is_empty() { 0 } else { spare }];
     let mut book = vec![true, true, false];
-    for i in &reg_ix { chains.push(entries[*i].data.as_ref().unwrap().len().div_ceil(ss)); book.push(false); }
+    for i in &reg_ix { chains.push(entries[*i].data.as_ref().unwrap().len().div_ceil(ss) + spare); book.push(false); }
     let n_data: usize = chains.iter().sum::<usize>() + lay.free_sectors;
     // FAT / DIFAT sizes: fixpoint
     let mut f = 1usize;
@@ -199,11 +203,13 @@ pub fn write(entries: &[Entry], lay: &Layout) -> Vec<u8> {
     for (k, i) in reg_ix.iter().enumerate() {
         let d = entries[*i].data.as_ref().unwrap();
         for (j, id) in asg[5 + k].iter().enumerate() {
+            if j * ss >= d.len() { sectors[*id as usize].fill(0xEE); continue; }
             let chunk = &d[j * ss..((j + 1) * ss).min(d.len())];
             sectors[*id as usize][..chunk.len()].copy_from_slice(chunk);
         }
     }
     for (j, id) in ms_ids.iter().enumerate() {
+        if j * ss >= ministream.len() { sectors[*id as usize].fill(0xEE); continue; }
         let chunk = &ministream[j * ss..((j + 1) * ss).min(ministream.len())];
         sectors[*id as usize][..chunk.len()].copy_from_slice(chunk);
     }
